@@ -251,6 +251,12 @@ def inmemory_part(res, rng, drv, big, racing=True):
             cut_scenario(res, pre, stream, off, state, False)
             res.count(("cut-racing", state, off))
             res.bump("racing_close", state)
+    # an application `disconnected` listener that raises, peer cut between frames / mid-length / mid-header / mid-body
+    for state, (pre, stream) in streams.items():
+        for off in sorted({0, 2, 7, 14, 21, 30, len(stream)}):
+            raising_listener_case(res, pre, stream, off, state)
+            res.count(("raising-listener", state, off), sample={"op": "application disconnected-listener raises at link loss", "state": state, "offset": off} if off == 7 else None)
+            res.bump("raising_listener", state)
     # random valid streams, cut anywhere
     for i in range(60 if big else 12):
         frames = []
@@ -272,6 +278,65 @@ def inmemory_part(res, rng, drv, big, racing=True):
             mp = "ok " + " | ".join(project(x) for x in m[3:].split(" | ")) if m.startswith("ok ") else m
             if mp != "ok " + " | ".join(snaps):
                 res.disagree("close sequence (random stream): real threads vs Model.Wedge", {"case": case}, mp, "ok " + " | ".join(snaps))
+
+
+# ---------------------------------------------------------------------------------------------- application callback raises at link loss
+def raising_listener_case(res, pre: bytes, stream: bytes, off: int, state: str):
+    """An application `disconnected` listener that raises when the link is lost (here: the peer cut at `off`).  The connection layer logs
+    and ignores exceptions out of its event callbacks (as `TcpConnection.__receiver_thread` does); the protocol must have finished its own
+    disconnect handling regardless: NOT_CONNECTED, receiver thread stopped, buffer empty, and the next connection selects."""
+    case = {"kind": "raising-disconnected-listener", "state": state, "pre": pre.hex(), "stream": stream.hex(), "offset": off}
+    ep = Endpoint()
+
+    def angry(_data):
+        raise RuntimeError("application callback fails at link loss")
+    ep.p.events.disconnected += angry
+    ep.connect()
+    total = 0
+    if pre:
+        ep.feed(pre)
+        total += len(frame_lens(pre)[0])
+        ep.settle(total)
+    ep.feed(stream[:off])
+    total += len(frame_lens(stream[:off])[0])
+    if not ep.settle(total):
+        res.violate("c09-not-quiescent", "complete frames of the prefix not handled within 5 s", case)
+        return
+    done = threading.Event()
+    raised = []
+
+    def closer():
+        for ev in (ep.c.on_disconnecting, ep.c.on_disconnected):
+            try:
+                ev({"source": ep.c})
+            except Exception as exc:  # noqa: BLE001   (what TcpConnection does: log and go on)
+                raised.append(type(exc).__name__)
+        done.set()
+    threading.Thread(target=closer, daemon=True).start()
+    if not done.wait(CLOSE_BOUND):
+        res.bump("close_hangs", "n")
+        res.violate("c09-close-hang", f"close sequence did not finish within {CLOSE_BOUND:.0f} s (application listener raises)", case)
+        return
+    rt = ep.p._thread._receiver_thread
+    actual = {"state": str(ep.state()), "buffer": ep.buf(), "receiver_thread_alive": bool(rt and rt.is_alive()), "callback_raised": raised}
+    if ep.state() != ConnectionState.NOT_CONNECTED or ep.buf() != 0 or actual["receiver_thread_alive"]:
+        res.violate("c09-listener-exception-skips-teardown", "an application `disconnected` listener that raises at link loss keeps the protocol "
+                    "from finishing its own disconnect handling (state / receiver thread / receive buffer)", case,
+                    {"state": "NOT_CONNECTED", "buffer": 0, "receiver_thread_alive": False}, actual)
+        return
+    ep.c.take()
+    ep.connect()
+    ep.feed(SELECT_REQ(4242))
+    ok = M.wait_until(lambda: ep.state() == ConnectionState.CONNECTED_SELECTED
+                      and any(b.header.s_type.value == 2 and b.header.system == 4242 for b in M.split_frames(b"".join(ep.c.sent))), 3.0)
+    if not ok:
+        res.violate("c09-reselect", "after a close sequence during which an application listener raised: Select.req on the new connection not "
+                    "answered / not SELECTED", case, "Select.rsp(4242), CONNECTED_SELECTED", {"state": str(ep.state())})
+    for ev in (ep.c.on_disconnecting, ep.c.on_disconnected):
+        try:
+            ev({"source": ep.c})
+        except Exception:  # noqa: BLE001
+            pass
 
 
 # ---------------------------------------------------------------------------------------------- active mode: "selects again"
@@ -903,8 +968,64 @@ def overlap_witness(res, drv):
         peer2.close()
 
 
+def abortive_close_case(res, active: bool):
+    """The peer resets the connection (SO_LINGER 0 → RST) while the session is selected.  The endpoint's close sequence then writes its
+    Separate.req to a dead socket (EPIPE / ECONNRESET): `send_data` has to report failure so that the block is resolved and the close
+    sequence finishes: NOT_CONNECTED within a bound, `disable()` returns."""
+    import struct as _struct
+    case = {"kind": "tcp-abortive-close", "mode": "active" if active else "passive"}
+    res.count(("tcp-abortive-close", active), sample={"op": "real sockets: selected session, peer resets the connection (RST)", **case})
+    res.bump("tcp_cases", "abortive close " + case["mode"])
+    port = free_port()
+    mode = secsgem.hsms.HsmsConnectMode.ACTIVE if active else secsgem.hsms.HsmsConnectMode.PASSIVE
+    srv = None
+    if active:
+        srv = socket.socket()
+        srv.setsockopt(socket.SOL_SOCKET, socket.SO_REUSEADDR, 1)
+        srv.bind(("127.0.0.1", port))
+        srv.listen(1)
+        srv.settimeout(6)
+    p = secsgem.hsms.HsmsProtocol(secsgem.hsms.HsmsSettings(address="127.0.0.1", port=port, connect_mode=mode, t5=5, t6=2))
+    if not call_bounded(p.enable, 5):
+        res.violate("c09-enable-hang", "enable() did not return within 5 s", case)
+        return
+    if active:
+        try:
+            peer, _ = srv.accept()
+        except OSError:
+            res.violate("c09-no-connect", "active endpoint did not connect within 6 s", case)
+            call_bounded(p.disable, 5)
+            return
+        req = read_frames(peer, 1, 3.0)
+        if req and req[0].header.s_type.value == 1:
+            peer.sendall(M.ref_frame(req[0].header.system, 0xFFFF, 0, 0, False, 0, 2, b""))
+        sel = M.wait_until(lambda: p.connection_state.current == ConnectionState.CONNECTED_SELECTED, 3.0)
+    else:
+        peer = connect_peer(port)
+        if peer is None:
+            res.violate("c09-no-listen", "passive endpoint does not accept a connection within 3 s", case)
+            call_bounded(p.disable, 5)
+            return
+        sel, _ = select_on(peer, p, 4545)
+    if not sel:
+        res.violate("c09-reselect", "session not SELECTED before the reset", case)
+    # a Linktest.req right before the reset: the endpoint also has an answer to write to the dead socket
+    peer.sendall(LINKTEST_REQ(78))
+    peer.setsockopt(socket.SOL_SOCKET, socket.SO_LINGER, _struct.pack("ii", 1, 0))
+    peer.close()
+    if not M.wait_until(lambda: p.connection_state.current == ConnectionState.NOT_CONNECTED and torn_down(p), 8.0):
+        res.violate("c09-close-hang", "peer reset the connection: NOT_CONNECTED / complete teardown not reached within 8 s (close sequence stuck "
+                    "writing to the dead socket?)", case, "NOT_CONNECTED", diag(p))
+    if not call_bounded(p.disable, 8):
+        res.violate("c09-disable-hang", "disable() after the peer's reset did not return within 8 s", case, "returns", diag(p))
+    if srv is not None:
+        srv.close()
+
+
 def tcp_part(res, rng, drv, big):
     f13_witness(res, drv)
+    abortive_close_case(res, False)
+    abortive_close_case(res, True)
     overlap_witness(res, drv)
     idle_server_witness(res, drv)
     relisten_case(res, True)
@@ -966,7 +1087,7 @@ def main():
         M.guarded(res, "witness send failure", lambda: witness_send_failure(res, drv))
     if not replaying or "c09-stale-reply-next-connection" in rec_classes:
         M.guarded(res, "witness stale reply", lambda: witness_stale_reply(res, drv))
-    if not replaying or rec_classes & {"c09-relisten-overlaps-teardown", "c09-tcp-disable-hang", "c09-tcp-server-idle-disable-hang", "c09-disable-hang", "c09-enable-hang", "c09-no-listen", "c09-no-reconnect", "c09-no-connect", "c09-reselect", "c09-state", "c09-no-linktest-rsp", "c09-no-select-req"} \
+    if not replaying or rec_classes & {"c09-relisten-overlaps-teardown", "c09-tcp-disable-hang", "c09-tcp-server-idle-disable-hang", "c09-disable-hang", "c09-enable-hang", "c09-no-listen", "c09-no-reconnect", "c09-no-connect", "c09-reselect", "c09-state", "c09-no-linktest-rsp", "c09-no-select-req", "c09-close-hang"} \
             or any((v.get("case") or {}).get("kind", "").startswith("tcp") for v in recorded):
         M.guarded(res, "tcp", lambda: tcp_part(res, rng.fork("tcp"), drv, big))
     if replaying:
